@@ -115,7 +115,7 @@ def env_for(variant):
     e["LC_ALL"] = "C"
     e["ASAN_OPTIONS"] = ("detect_leaks=0:allocator_may_return_null=1:max_allocation_size_mb=1024:"
                          "abort_on_error=0:halt_on_error=1:detect_stack_use_after_return=0:"
-                         "handle_segv=1:allow_user_poisoning=1:symbolize=1")
+                         "handle_segv=1:allow_user_poisoning=1:symbolize=1:detect_odr_violation=0")
     e["TSAN_OPTIONS"] = "halt_on_error=0:second_deadlock_stack=1"
     return e
 
